@@ -221,3 +221,30 @@ Theorem C11_relative_moves_subtree_only ltr offs x y kids :
   positions (relative_positioning b) = map (fun p => (fst p + fst v, snd p + snd v)) (positions b).
 Proof. exact (relative_moves_subtree_only ltr offs x y kids). Qed.
 Print Assumptions C11_relative_moves_subtree_only.
+
+(* ---- absolute_height and absolute_width (the function under the handle_min_max_width decorator) of
+   weasyprint/layout/absolute.py REGENERATED from the source on every run (gen/GenAbsolute.v, interpreter
+   base/Py.v) compute the models abs_height / abs_width used above, for every pattern of 'auto' among
+   top/bottom/height/margins (left/right/width/margins, root / ltr / rtl parent): the mutated box agrees field by
+   field (A.vbox_rep / A.hbox_rep, numbers up to ==) and the returned (translate_box, translation) is the
+   model's.  shrink_to_fit is an oracle (A.stf_oracle: some function of the available width). *)
+From Coq Require Import String.
+Require WV.base.Py WV.gen.GenAbsolute WV.proofs.C11_gen_abs.
+Module A := WV.proofs.C11_gen_abs.
+
+Theorem C11_source_absolute_height O (HO : Py.ops_ok O) t bo h mt mb pt pbo bt bbo pos ctx cbx cby cbw cbh :
+  Py.run O GenAbsolute.absolute_height_body
+    [("box"%string, A.vbox t bo h mt mb pt pbo bt bbo pos); ("context"%string, ctx); ("cb_x"%string, cbx);
+     ("cb_y"%string, Py.VNum cby); ("cb_width"%string, cbw); ("cb_height"%string, Py.VNum cbh)]
+    (A.height_post (abs_height cby cbh (A.vaxis t bo h mt mb pt pbo bt bbo pos))) (fun _ => False).
+Proof. exact (A.gen_absolute_height O HO t bo h mt mb pt pbo bt bbo pos ctx cbx cby cbw cbh). Qed.
+Print Assumptions C11_source_absolute_height.
+
+Theorem C11_source_absolute_width O (HO : Py.ops_ok O) stf (HS : A.stf_oracle O stf)
+      (root ltr : bool) l r w ml mr pl pr bl br pos cbx cby cbw cbh :
+  Py.run O GenAbsolute.absolute_width_body
+    [("box"%string, A.hbox root ltr l r w ml mr pl pr bl br pos); ("context"%string, Py.VObj []);
+     ("cb_x"%string, Py.VNum cbx); ("cb_y"%string, cby); ("cb_width"%string, Py.VNum cbw); ("cb_height"%string, cbh)]
+    (A.width_post (abs_width (root || ltr) stf cbx cbw (A.haxis l r w ml mr pl pr bl br pos))) (fun _ => False).
+Proof. exact (A.gen_absolute_width O HO stf HS root ltr l r w ml mr pl pr bl br pos cbx cby cbw cbh). Qed.
+Print Assumptions C11_source_absolute_width.
